@@ -1,26 +1,28 @@
 (* C10Proofs.v — completeness of the individual validation steps of the front-end model:
    whatever satisfies the enforced rules is accepted. *)
-Require Import Base Syntax Front Plan.
+Require Import Base Syntax Front Plan gen.CounterFacts.
 Require Import spec.Spec_C09 proofs.C09Proofs proofs.LayoutProofs Layout.
 Require Import Permutation.
 Open Scope N_scope.
 
 (* ---- interface verifier: the enforced rules are exactly sufficient ---- *)
 
-Definition enforced_param_ok (p : mparam) : bool :=
+(* [small_in]: the verifier also rejects an input array of a small object-bearing struct *)
+Definition enforced_param_ok_gen (small_in : bool) (p : mparam) : bool :=
   match rp_kind (abs_param p), rp_arr (abs_param p) with
   | KObj, Some None => false                         (* unbounded object array *)
   | KData, Some (Some _) => false                    (* bounded array of data *)
   | KObjStruct, Some _ =>                            (* array of object-bearing structs *)
-      negb (mp_out p) && is_small (mp_ty p) &&
+      negb small_in && negb (mp_out p) && is_small (mp_ty p) &&
       match mp_shape p with PArr (Some _) => false | _ => true end
   | _, _ => true
   end.
+Definition enforced_param_ok := enforced_param_ok_gen verifier_small_objstruct_in_array.
 
-Lemma check_param_complete p : enforced_param_ok p = true ->
-  check_param p = Ok (is_objarr (abs_param p), is_objval (abs_param p)).
+Lemma check_param_complete s p : enforced_param_ok_gen s p = true ->
+  check_param_gen s p = Ok (is_objarr (abs_param p), is_objval (abs_param p)).
 Proof.
-  unfold enforced_param_ok, check_param, abs_param, kind_of, is_objarr, is_objval. cbn [rp_kind rp_arr].
+  unfold enforced_param_ok_gen, check_param_gen, abs_param, kind_of, is_objarr, is_objval. cbn [rp_kind rp_arr].
   destruct (mp_shape p) as [|cnt].
   - intros _. destruct (mp_ty p); cbn; try reflexivity. destruct (contains_interfaces _); reflexivity.
   - destruct (mp_ty p) as [|q|n|sn fs]; cbn [is_miface is_struct_or_prim is_mstruct andb].
@@ -28,36 +30,58 @@ Proof.
     + destruct cnt; [discriminate | reflexivity].
     + destruct cnt; [reflexivity | discriminate].
     + destruct (contains_interfaces (MStruct sn fs)) eqn:EC.
-      * destruct (mp_out p); cbn [negb andb]; [discriminate|].
+      * destruct s; cbn [negb andb orb]; [discriminate|].
+        destruct (mp_out p); cbn [negb andb]; [discriminate|].
         destruct (is_small (MStruct sn fs)); cbn [negb andb]; [|discriminate].
         destruct cnt; [discriminate | reflexivity].
       * rewrite !andb_false_r. destruct cnt; [discriminate | reflexivity].
 Qed.
 
-Lemma check_params_complete ps : forall ai vi ao vo,
-  forallb enforced_param_ok ps = true ->
+Lemma check_params_complete two s ps : forall ai vi ao vo,
+  forallb (enforced_param_ok_gen s) ps = true ->
   let ai' := ai || existsb (fun p => negb (mp_out p) && is_objarr (abs_param p)) ps in
   let vi' := vi || existsb (fun p => negb (mp_out p) && is_objval (abs_param p)) ps in
   let ao' := ao || existsb (fun p => mp_out p && is_objarr (abs_param p)) ps in
   let vo' := vo || existsb (fun p => mp_out p && is_objval (abs_param p)) ps in
   (ai' && vi') || (ao' && vo') = false ->
-  check_params ps ai vi ao vo = Ok tt.
+  (two = true -> (b2n ai + cnt_dir false ps <= 1)%nat /\ (b2n ao + cnt_dir true ps <= 1)%nat) ->
+  check_params_gen two s ps ai vi ao vo = Ok tt.
 Proof.
-  induction ps as [|p ps IH]; intros ai vi ao vo HF; cbn [check_params existsb forallb] in *.
-  - cbv zeta. rewrite !orb_false_r. intro H. now rewrite H.
-  - apply andb_prop in HF. destruct HF as [HP HF]. cbv zeta. intro H.
-    rewrite (check_param_complete _ HP). cbn.
-    destruct (mp_out p) eqn:EO; cbn [negb andb orb] in *.
-    + apply IH; [exact HF|]. cbv zeta. rewrite <- H. now rewrite !orb_assoc.
-    + apply IH; [exact HF|]. cbv zeta. rewrite <- H. now rewrite !orb_assoc.
+  induction ps as [|p ps IH]; intros ai vi ao vo HF; cbn [check_params_gen existsb forallb] in *.
+  - cbv zeta. rewrite !orb_false_r. intros H _. now rewrite H.
+  - apply andb_prop in HF. destruct HF as [HP HF]. cbv zeta. intros H HT.
+    rewrite (check_param_complete _ _ HP). cbn [obind].
+    rewrite !cnt_dir_cons in HT.
+    destruct (mp_out p) eqn:EO; cbn [negb andb orb Bool.eqb] in *.
+    + destruct two; cbn [andb].
+      * destruct (HT eq_refl) as [T1 T2].
+        destruct (is_objarr (abs_param p)) eqn:EA; cbn [andb b2n] in *.
+        -- destruct ao; cbn [b2n] in T2; [lia|]. apply IH; [exact HF | cbv zeta; (etransitivity; [|exact H]); cbn [orb]; now rewrite ?orb_assoc, ?orb_false_r|].
+           intros _. cbn [orb b2n]. split; lia.
+        -- apply IH; [exact HF | cbv zeta; (etransitivity; [|exact H]); cbn [orb]; now rewrite ?orb_assoc, ?orb_false_r|].
+           intros _. rewrite orb_false_r. split; lia.
+      * apply IH; [exact HF | cbv zeta; (etransitivity; [|exact H]); cbn [orb]; now rewrite ?orb_assoc, ?orb_false_r | discriminate].
+    + destruct two; cbn [andb].
+      * destruct (HT eq_refl) as [T1 T2].
+        destruct (is_objarr (abs_param p)) eqn:EA; cbn [andb b2n] in *.
+        -- destruct ai; cbn [b2n] in T1; [lia|]. apply IH; [exact HF | cbv zeta; (etransitivity; [|exact H]); cbn [orb]; now rewrite ?orb_assoc, ?orb_false_r|].
+           intros _. cbn [orb b2n]. split; lia.
+        -- apply IH; [exact HF | cbv zeta; (etransitivity; [|exact H]); cbn [orb]; now rewrite ?orb_assoc, ?orb_false_r|].
+           intros _. rewrite orb_false_r. split; lia.
+      * apply IH; [exact HF | cbv zeta; (etransitivity; [|exact H]); cbn [orb]; now rewrite ?orb_assoc, ?orb_false_r | discriminate].
 Qed.
 
-Theorem interface_rules_complete ps :
-  forallb enforced_param_ok ps = true ->
+Theorem interface_rules_complete_gen two s ps :
+  forallb (enforced_param_ok_gen s) ps = true ->
   rule_no_objarr_with_single (map abs_param ps) = true ->
-  check_params ps false false false false = Ok tt.
+  (two = true -> rule_no_two_objarr (map abs_param ps) = true) ->
+  check_params_gen two s ps false false false false = Ok tt.
 Proof.
-  intros HF HR. apply check_params_complete; [exact HF|]. cbv zeta. cbn [orb].
+  intros HF HR HT. apply check_params_complete; [exact HF| |].
+  2:{ intro E. specialize (HT E). unfold rule_no_two_objarr in HT. cbn [forallb] in HT.
+      fold (cnt_dir false ps) in HT. fold (cnt_dir true ps) in HT. rewrite andb_true_r in HT.
+      apply andb_prop in HT. destruct HT as [T1 T2]. apply N.leb_le in T1, T2. cbn [b2n plus]. split; lia. }
+  cbv zeta. cbn [orb].
   unfold rule_no_objarr_with_single in HR. cbn [forallb] in HR. rewrite andb_true_r in HR.
   rewrite !existsb_map' in HR.
   rewrite (existsb_ext' _ (fun p => negb (mp_out p) && is_objarr (abs_param p)) ps) in HR
@@ -73,6 +97,38 @@ Proof.
     by (intro x; cbn [abs_param rp_out]; destruct (mp_out x); reflexivity).
   apply andb_prop in HR. destruct HR as [H1 H2].
   apply negb_true_iff in H1, H2. now rewrite H1, H2.
+Qed.
+
+Theorem interface_rules_complete ps :
+  forallb enforced_param_ok ps = true ->
+  rule_no_objarr_with_single (map abs_param ps) = true ->
+  rule_no_two_objarr (map abs_param ps) = true ->
+  check_params ps false false false false = Ok tt.
+Proof. intros A B C. apply interface_rules_complete_gen; auto. Qed.
+
+(* with the repaired verifier the enforced rules are the five rules of the specification:
+   whatever satisfies them is accepted (and check_params_all_rules is the converse) *)
+Lemma rules_imply_enforced p :
+  (match rp_kind (abs_param p), rp_arr (abs_param p) with KObj, Some None => false | _, _ => true end) = true ->
+  (match rp_kind (abs_param p), rp_arr (abs_param p) with KObjStruct, Some _ => false | _, _ => true end) = true ->
+  (match rp_kind (abs_param p), rp_arr (abs_param p) with (KData | KObjStruct), Some (Some _) => false | _, _ => true end) = true ->
+  enforced_param_ok_gen true p = true.
+Proof.
+  unfold enforced_param_ok_gen. destruct (rp_kind (abs_param p)), (rp_arr (abs_param p)) as [[c|]|]; intros; try reflexivity; discriminate.
+Qed.
+
+Theorem spec_rules_complete ps :
+  forallb (fun b => b) (params_rules (map abs_param ps)) = true ->
+  check_params_gen true true ps false false false false = Ok tt.
+Proof.
+  unfold params_rules. cbn [forallb]. rewrite andb_true_r. intro H.
+  apply andb_prop in H. destruct H as [R1 H]. apply andb_prop in H. destruct H as [R2 H].
+  apply andb_prop in H. destruct H as [R3 H]. apply andb_prop in H. destruct H as [R4 R5].
+  apply interface_rules_complete_gen; [|exact R2 | intros _; exact R3].
+  unfold rule_no_unbounded_objarr, rule_no_array_of_objstruct, rule_no_bounded_data_array in *.
+  clear R2 R3. induction ps as [|p ps IH]; cbn [map forallb] in *; [reflexivity|].
+  apply andb_prop in R1, R4, R5. destruct R1 as [A1 A2], R4 as [B1 B2], R5 as [C1 C2].
+  rewrite (rules_imply_enforced p A1 B1 C1). cbn [andb]. now apply IH.
 Qed.
 
 (* ---- duplicate-parameter pass ---- *)
